@@ -261,6 +261,7 @@ def run_shard(spec_):
 TEXT = ("Held on every run observed: ~1 200 (quick) / ~40 000 (thorough) problems; every log row and the final container "
         "are checked against the closed limits, every Jacobian-step row against max_step, every knob write against the "
         "knob's active flag at that moment, per-call disabling against the flags before the call, and a garbage twin "
-        "shows that disabled targets do not influence the write trace. Exploration over sampled problems.")
+        "shows that disabled targets do not influence the write trace. Exploration over sampled problems."
+        ' Knobs are named by name, tag, position, or some by tag and the others by name in ONE enable/disable call; the flags are compared with what was asked for.')
 NOTE = "Trusted: the tracing knob container; the generator's own limits / max_step / disabled subsets."
 TECHNIQUE = "runtime monitoring: knob write trace with flags at write time + offline checks of the optimizer log against generator-side bounds + twin run with perturbed disabled targets"
